@@ -22,7 +22,7 @@ RULE = ('W in {1 home entry, 1 home + 1 volume entry, 2 home entries} x M subset
         'non-UTF-8, no Path, no DeletionDate, bad date, the same two sharing the Path of a well-formed entry, info without payload, payload without info, directory named x.trashinfo} x all permutations of info/ (<= 4!) x '
         'readers {list, restore date|path|none, rm exact, rm *, empty, empty 0, empty 7}; non-trivial = a malformed neighbour was read before a well-formed entry; '
         'distinct = (reader, neighbour kinds, outcome)')
-MK = ['nontrashinfo', 'empty', 'header', 'binary', 'nonutf8', 'nopath', 'nodate', 'baddate', 'nopayload', 'orphan', 'dirinfo', 'nodate-samepath', 'baddate-samepath']
+MK = ['nontrashinfo', 'empty', 'header', 'binary', 'nonutf8', 'nopath', 'nodate', 'baddate', 'nopayload', 'orphan', 'dirinfo', 'nodate-samepath', 'baddate-samepath', 'dangling-link-info', 'loop-link-info', 'tzdate']
 READERS = ['list', 'restore-date', 'restore-path', 'restore-none', 'rm-exact', 'rm-star', 'empty', 'empty0', 'empty7']
 WSETS = ['h1', 'h1+v1', 'h2']
 TD = scen.HOME_TRASH
@@ -88,6 +88,12 @@ def build(ws, ms):
             scen.add_trashed(W, TD, 'mid_1', None, raw='[Trash Info]\nPath=/home/u/w/mid\n')
         elif m == 'baddate-samepath':
             scen.add_trashed(W, TD, 'mid_2', None, raw='[Trash Info]\nPath=/home/u/w/mid\nDeletionDate=2024-13-45T99:00:00\n')
+        elif m == 'dangling-link-info':
+            W.link(TD + '/info/g-dangling.trashinfo', 'no-such-file')
+        elif m == 'loop-link-info':
+            W.link(TD + '/info/l-loop.trashinfo', 'l-loop.trashinfo')
+        elif m == 'tzdate':
+            scen.add_trashed(W, TD, 't-tzdate', None, raw='[Trash Info]\nPath=/home/u/w/tzdate\nDeletionDate=2019-05-06T07:08:09+02:00\n')
         elif m == 'nopayload':
             scen.add_trashed(W, TD, 'z-nopayload', '/home/u/w/nopayload', '2020-01-01T00:00:00', payload=None)
         elif m == 'orphan':
@@ -136,6 +142,12 @@ def observe(ws, ms, reader, perm):
             after = sb.snapshot()
             for td, nm, loc, d in ents:
                 obs['state:' + nm] = scen.entry_state(before, after, td, nm)
+            if reader.startswith('rm'):
+                # an info without a Path has no original name: no pattern can match it (C20: rm matches what list prints)
+                for m in ms:
+                    nm = {'empty': 'a-empty', 'header': 'b-header', 'nopath': 'n-nopath'}.get(m)
+                    if nm and scen.info_of(after, TD, nm) is None:
+                        obs['pathless-entry-removed-by-rm:' + nm] = True
         # did a malformed neighbour get read before a well-formed one?
         order = [t[2][0] for t in r.trace if t[1] == 'fopen' and '/info/' in t[2][0]]
     return obs, {'exit': r.exit, 'err': r.err[-400:], 'read_order': [p.rsplit('/', 1)[1] for p in order][:8]}
